@@ -49,9 +49,51 @@ LEVEL = 'model_checking'
 TECHNIQUE = ('symbolic execution of the real Message.unpack and of everything it hands back (z3 over every body byte at small '
              'sizes, over every payload byte of each registered decoder behind concrete well-formed headers), outcome class, '
              'NOTIFICATION code and interpreter-step count checked per path; registry-driven sweep')
-ASSUMPTIONS = []
-BOUNDS = {}
-OUTSIDE = []
+ASSUMPTIONS = [
+    'sessions: real Neighbor from a generated configuration naming every family the grammar can name, Negotiated through the real sent()/received() '
+    'of two OPENs (kits/session.py); variants: 4-byte AS, 2-byte AS, ADD-PATH send/receive on every family, extended message, extended next hop '
+    '(RFC 8950) for ipv4 unicast / ipv4 mpls-vpn / ipv6 unicast; aigp enabled',
+    'logging (log, lazymsg, lazyformat, lazyattribute, lazynlri) has an empty body in every exabgp module',
+    'process-wide state reset before every path: AttributeCollection.cached/previous, Attribute.cache, UpdateCollection._EOR_CACHE, the BGP-LS '
+    'classes LinkState.get_ls_class registers on the fly, and the class attribute ID that Attribute.klass()/Capability.klass() overwrite with the looked-up code',
+    'registries pruned to what a plain interpreter registers: the import hook loads every module under exabgp.bgp, including '
+    'community/extended/bandwidth.py which the product never imports (its decoder is registered in the symbolic worker only)',
+    'bytes.decode(utf-8|ascii): ONE fork on well-formedness (RFC 3629 automaton as a z3 formula) when errors=strict, none otherwise; the text is the '
+    'decoding of the model octets (sampled)',
+    'struct.unpack of an IEEE-754 field: fork on {NaN, infinity, finite}, then the model octets; symbolic integer * float takes the model value (formatting)',
+    'IteDict.get memoised per key term (same z3 term as the engine builds)',
+    'work is counted in interpreter steps (exabgp function entries + backward jumps, sys.monitoring local events on exabgp code objects), not seconds; '
+    'bound %d*len(body)+%d: measured worst well-formed case 121 steps/octet (UPDATE made of 1-octet /0 NLRI, decoded then rendered 4 ways), margin x3.3; '
+    'every path is cut at %d steps' % (400, 3000, 60000),
+    'renderings forced symbolically: json()/str()/extensive()/index() of every NLRI, json()/json(generic)/str()/index() of the attribute collection, '
+    'str()/repr() of every attribute, str()/extensive() of the other messages; the API encoders (v6 JSON, v4 JSON, v4 text) on the concrete replay of each path',
+    'the sizes explored per decoder are chosen by a concrete probe (constant fillers 00/01/FF at every size up to the cap; a size is kept when the '
+    'refusal wording or the decoded shape changes there): the probe selects bounds, it decides nothing',
+    'ADD-PATH path identifier concrete (00 00 00 01) and only for the INET family of NLRI classes (the others do not read one)',
+    'per (decoder, variant, size) path budget (quick 120, thorough 2500; free bodies 3000 / 60000 per size): beyond it the remaining paths of that size '
+    'are cut, recorded as class budget-cut:* and the unit is reported truncated',
+]
+BOUNDS = {
+    'quick': {'free bodies': 'OPEN <= 16, UPDATE <= 7, NOTIFICATION <= 5, KEEPALIVE <= 2, ROUTE-REFRESH <= 6, OPERATIONAL <= 10 octets, type 7..255 <= 2; '
+                             'UPDATE with a free path-attribute block of 3..4 octets',
+              'decoders': 'every registered attribute code, AS_PATH segment type, extended-community (type, subtype), PMSI tunnel type, tunnel-encap tunnel / '
+                          'sub-TLV / segment type, AIGP TLV, BGP-LS attribute TLV (+ sub-TLV), prefix-SID TLV, NLRI family (free <= 5..6 octets; one prefix-like '
+                          'NLRI <= 44), EVPN / MVPN / MUP / BGP-LS route type (+ descriptor TLV), FlowSpec component (payload <= 1), MP next hop per family, '
+                          'capability code (+ RFC 9072 layout), OPEN parameter type, OPERATIONAL sub type, shutdown communication: <= 8 probe-chosen payload '
+                          'sizes each (cap 12..72 octets), declared length L or L+1; TLV / NLRI loops with 2 and 3 well-sized elements',
+              'unusual': 'k = 1, 3, 6 symbolic unknown attributes (depth law); k solved by z3 for msg_size 4096 and 65535; k = 64, 200, 400 concrete'},
+    'thorough': {'free bodies': 'OPEN <= 20, UPDATE <= 9, NOTIFICATION <= 7, ROUTE-REFRESH <= 8, OPERATIONAL <= 14; attribute block 3..6',
+                 'decoders': 'same sweep, size caps doubled, <= 24 sizes per decoder, all four MP_REACH/MP_UNREACH x ADD-PATH variants at every size, path budget 2500',
+                 'unusual': 'k = 1..6, 8 symbolic; k = 64..1356 concrete'},
+}
+OUTSIDE = [
+    'bodies longer than the free bound are covered only through the per-decoder sweep (one decoder payload symbolic, the rest of the message concrete and well-formed)',
+    'decoders whose path budget is hit are explored, not exhausted (listed as budget-cut:* in the outcome census; FlowSpec operators beyond 1 payload octet are C16)',
+    'CPU time in seconds; memory',
+    'the families the configuration grammar cannot name (ipv6 multicast, ipv4 rtc) cannot be negotiated: their MP_REACH is checked to be refused, their decoders are not reachable',
+    'what the reactor does with a decoded message (Adj-RIB-In, timers): C02, C08, C12; the content of API events: C13',
+    'ROUTE-REFRESH semantic handling of subtypes (BoRR/EoRR trigger a resend in RouteRefreshHandler) is not a decode fault and is not judged here',
+]
 
 # ---------------------------------------------------------------------------------------------------- engine adjustments (this check's processes only)
 #
@@ -1183,9 +1225,26 @@ def h_depth(ctx, k, transitive):
         return ('refused', type(e).__name__)
     ctx.cover('decoded')
     ctx.check('valid-message-accepted', n_ann == 1, sig='C03:unusual:%d-unknown-attributes:route-lost' % k, info={'body': body})
-    # the linear law the solver query of unusual/limit relies on
-    ctx.check('depth-is-linear', m.tdepth == k + 4, sig='C03:unusual:parse-depth-law-changed', info={'k': k, 'depth': m.tdepth})
+    # the law the solver query of unusual/limit relies on: depth(k) = t0 + per*k, the two constants measured on the real
+    # decoder with concrete contents (per = 1 while AttributeCollection.parse recurses once per attribute, 0 for a loop);
+    # proved here for ALL contents of the k attributes
+    per, t0, _ = depth_law(neg, transitive)
+    ctx.check('depth-is-linear', m.tdepth == t0 + per * k, sig='C03:unusual:parse-depth-not-the-measured-law', info={'k': k, 'depth': m.tdepth, 'law': '%d + %d*k' % (t0, per)})
     return ('decoded', k, m.tdepth)
+
+
+_LAW = {}
+
+
+def depth_law(neg, transitive):
+    """(frames of AttributeCollection.parse per unknown attribute, its depth at k = 0, exabgp frames that do not depend on k)"""
+    key = (id(neg), transitive)
+    if key not in _LAW:
+        o1, t1, d1 = parse_depth(bytes(unusual_body(2, transitive)), neg)
+        o2, t2, d2 = parse_depth(bytes(unusual_body(12, transitive)), neg)
+        per = (t2 - t1) // 10
+        _LAW[key] = (per, t2 - 12 * per, d2 - 12 * per)
+    return _LAW[key]
 
 
 def h_limit(ctx, msg_size, transitive):
@@ -1196,10 +1255,7 @@ def h_limit(ctx, msg_size, transitive):
     neg = session(extended=msg_size > 4096)
     import inspect
     # the law, measured on the real decoder at two sizes (and proved for symbolic contents by unusual/depth/*)
-    o1, t1, d1 = parse_depth(bytes(unusual_body(2, transitive)), neg)
-    o2, t2, d2 = parse_depth(bytes(unusual_body(12, transitive)), neg)
-    per = (t2 - t1) // 10              # frames of AttributeCollection.parse per attribute
-    base = d2 - 12 * per               # exabgp frames on the stack that do not depend on k
+    per, _, base = depth_law(neg, transitive)
     fixed = 19 + len(unusual_body(0, transitive))
     here = len(inspect.stack(0))
     limit = sys.getrecursionlimit()
@@ -1259,7 +1315,7 @@ def units(tier):
     _TIER[0] = tier
     us = []
     T = 1500 if th else 300
-    top = {'open': (12, 14), 'update': (6, 7), 'notification': (5, 6), 'keepalive': (2, 3), 'route-refresh': (6, 7), 'operational': (8, 10), 'unregistered': (2, 3)}
+    top = {'open': (16, 20), 'update': (7, 9), 'notification': (5, 7), 'keepalive': (2, 3), 'route-refresh': (6, 8), 'operational': (10, 14), 'unregistered': (2, 3)}
     for tname in TYPES:
         n = top[tname][1 if th else 0]
         if tname == 'update':
